@@ -1818,7 +1818,12 @@ func (s *BgpServer) handleFSMMessage(peer *peer, e *fsmMsg) {
 							err := s.mgmtOperation(func() error {
 								peer.fsm.logger.Info("LLGR restart timer expired", slog.String("Family", family.String()), slog.Any("Duration", t))
 
-								s.dropAdjRIBIn(peer, []bgp.Family{family})
+								// Only the routes that are still stale: the peer may have
+								// re-established and re-announced routes of this family
+								// without having sent End-of-RIB yet.
+								dropped := peer.adjRibIn.DropStale([]bgp.Family{family})
+								s.notifyAdjInWithdrawWatcher(peer, dropped)
+								s.propagateUpdate(peer, dropped)
 
 								// when all llgr restart timer expired, stop PeerRestarting
 								if peer.llgrRestartTimerExpired(family) {
